@@ -12,8 +12,9 @@
 (declare-fun boxint (Int) Int)
 
 ; @block keccak requires Slice_Int A32
-; (assumed) keccak is an uninterpreted function of the byte content
+; (assumed) keccak is an uninterpreted function of the byte content: equal contents hash equally
 (declare-fun keccak (Slice_Int) A32)
+(assert (forall ((a Slice_Int) (b Slice_Int)) (! (=> (and (= (slen_Int a) (slen_Int b)) (forall ((k Int)) (=> (and (<= 0 k) (< k (slen_Int a))) (= (select (sarr_Int a) k) (select (sarr_Int b) k))))) (= (keccak a) (keccak b))) :pattern ((keccak a) (keccak b)))))
 
 ; @block ecrec requires Slice_Int A32 A65
 ; (assumed) secp256k1 public-key recovery: uninterpreted
@@ -55,3 +56,33 @@
 ; @block unix requires Time
 (define-fun unix ((t Time)) Int (time.unix t))
 (define-fun nsec ((t Time)) Int (time.nsec t))
+
+; @block bufops requires Slice_Int
+; appendbe(c,k,v) = c ++ BE_k(v);  catbytes(c,p) = c ++ p   (definitional)
+(declare-fun appendbe (Slice_Int Int Int) Slice_Int)
+(declare-fun catbytes (Slice_Int Slice_Int) Slice_Int)
+(assert (forall ((c Slice_Int) (k Int) (v Int)) (! (and (= (slen_Int (appendbe c k v)) (+ (slen_Int c) k)) (not (snil_Int (appendbe c k v)))) :pattern ((appendbe c k v)))))
+(assert (forall ((c Slice_Int) (k Int) (v Int) (i Int)) (! (=> (< i (slen_Int c)) (= (select (sarr_Int (appendbe c k v)) i) (select (sarr_Int c) i))) :pattern ((select (sarr_Int (appendbe c k v)) i)))))
+(assert (forall ((c Slice_Int) (v Int)) (! (=> (and (<= 0 v) (< v 256)) (= (select (sarr_Int (appendbe c 1 v)) (slen_Int c)) v)) :pattern ((appendbe c 1 v)))))
+(assert (forall ((c Slice_Int) (v Int)) (! (=> (and (<= 0 v) (< v 65536)) (and
+  (= (select (sarr_Int (appendbe c 2 v)) (slen_Int c)) (mod (div v 256) 256))
+  (= (select (sarr_Int (appendbe c 2 v)) (+ (slen_Int c) 1)) (mod v 256))
+  (= (+ (* 256 (select (sarr_Int (appendbe c 2 v)) (slen_Int c))) (select (sarr_Int (appendbe c 2 v)) (+ (slen_Int c) 1))) v))) :pattern ((appendbe c 2 v)))))
+(assert (forall ((c Slice_Int) (v Int)) (! (=> (and (<= 0 v) (< v 4294967296)) (and
+  (= (select (sarr_Int (appendbe c 4 v)) (slen_Int c)) (mod (div v 16777216) 256))
+  (= (select (sarr_Int (appendbe c 4 v)) (+ (slen_Int c) 1)) (mod (div v 65536) 256))
+  (= (select (sarr_Int (appendbe c 4 v)) (+ (slen_Int c) 2)) (mod (div v 256) 256))
+  (= (select (sarr_Int (appendbe c 4 v)) (+ (slen_Int c) 3)) (mod v 256))
+  (= (+ (* 16777216 (select (sarr_Int (appendbe c 4 v)) (slen_Int c))) (* 65536 (select (sarr_Int (appendbe c 4 v)) (+ (slen_Int c) 1))) (* 256 (select (sarr_Int (appendbe c 4 v)) (+ (slen_Int c) 2))) (select (sarr_Int (appendbe c 4 v)) (+ (slen_Int c) 3))) v))) :pattern ((appendbe c 4 v)))))
+(assert (forall ((c Slice_Int) (v Int)) (! (=> (and (<= 0 v) (< v 18446744073709551616)) (and
+  (= (select (sarr_Int (appendbe c 8 v)) (slen_Int c)) (mod (div v 72057594037927936) 256))
+  (= (select (sarr_Int (appendbe c 8 v)) (+ (slen_Int c) 1)) (mod (div v 281474976710656) 256))
+  (= (select (sarr_Int (appendbe c 8 v)) (+ (slen_Int c) 2)) (mod (div v 1099511627776) 256))
+  (= (select (sarr_Int (appendbe c 8 v)) (+ (slen_Int c) 3)) (mod (div v 4294967296) 256))
+  (= (select (sarr_Int (appendbe c 8 v)) (+ (slen_Int c) 4)) (mod (div v 16777216) 256))
+  (= (select (sarr_Int (appendbe c 8 v)) (+ (slen_Int c) 5)) (mod (div v 65536) 256))
+  (= (select (sarr_Int (appendbe c 8 v)) (+ (slen_Int c) 6)) (mod (div v 256) 256))
+  (= (select (sarr_Int (appendbe c 8 v)) (+ (slen_Int c) 7)) (mod v 256))
+  (= (+ (* 72057594037927936 (select (sarr_Int (appendbe c 8 v)) (slen_Int c))) (* 281474976710656 (select (sarr_Int (appendbe c 8 v)) (+ (slen_Int c) 1))) (* 1099511627776 (select (sarr_Int (appendbe c 8 v)) (+ (slen_Int c) 2))) (* 4294967296 (select (sarr_Int (appendbe c 8 v)) (+ (slen_Int c) 3))) (* 16777216 (select (sarr_Int (appendbe c 8 v)) (+ (slen_Int c) 4))) (* 65536 (select (sarr_Int (appendbe c 8 v)) (+ (slen_Int c) 5))) (* 256 (select (sarr_Int (appendbe c 8 v)) (+ (slen_Int c) 6))) (select (sarr_Int (appendbe c 8 v)) (+ (slen_Int c) 7))) v))) :pattern ((appendbe c 8 v)))))
+(assert (forall ((c Slice_Int) (p Slice_Int)) (! (and (= (slen_Int (catbytes c p)) (+ (slen_Int c) (slen_Int p))) (not (snil_Int (catbytes c p)))) :pattern ((catbytes c p)))))
+(assert (forall ((c Slice_Int) (p Slice_Int) (i Int)) (! (= (select (sarr_Int (catbytes c p)) i) (ite (< i (slen_Int c)) (select (sarr_Int c) i) (select (sarr_Int p) (- i (slen_Int c))))) :pattern ((select (sarr_Int (catbytes c p)) i)))))
